@@ -135,6 +135,31 @@ func c14Run(t *vk.T, proto string, n, th, rep int, env vk.Env) {
 			cur = rs
 			shape += "S/"
 		}
+		// optional copy through the library's own Clone method (material types that offer one): the copy must be the
+		// same key material — chain key, key, a consistent sharing — and everything below goes on with the copy
+		if cl, ok := cur.(fx.Cloner); ok && r.Intn(2) == 0 {
+			before := cur.Shares()
+			cm, cerr := cl.CloneVia()
+			if cerr != nil {
+				t.Violation(proto+"|clone-failed", "n=%d t=%d path=%s: %v", n, th, shape, cerr)
+				return
+			}
+			after := cm.Shares()
+			t.Obs("clones_between_derivations", 1)
+			for i := range before {
+				if i < len(after) && (!bytes.Equal(before[i].ChainKey, after[i].ChainKey) || !before[i].GroupKey.Equal(after[i].GroupKey)) {
+					t.Violation(proto+"|clone-changes-chain-key-or-key", "%s n=%d t=%d path=%s: party %q holds chain key %x / key %x, its Clone() %x / %x", proto, n, th, shape, before[i].ID, before[i].ChainKey, before[i].GroupKey.Compress(), after[i].ChainKey, after[i].GroupKey.Compress())
+					return
+				}
+			}
+			pk := before[0].GroupKey
+			if f, _ := fx.CheckMaterial(r, after, &pk, 20); len(f) > 0 {
+				t.Violation(proto+"|clone|"+f[0][0], "path=%s: the cloned material is not the same sharing: %s", shape, f[0][1])
+				return
+			}
+			cur = cm
+			shape += "C/"
+		}
 		shares = cur.Shares()
 		parent := shares[0].GroupKey
 		chain := shares[0].ChainKey
@@ -228,6 +253,47 @@ func c14Run(t *vk.T, proto string, n, th, rep int, env vk.Env) {
 				if f, _ := fx.CheckMaterial(r, child.Shares(), &expect, 20); len(f) > 0 {
 					t.Violation(proto+"|derivation-corrupts-sibling|"+f[0][0], "%s: after deriving a sibling the first child is no longer consistent: %s", tag, f[0][1])
 					return
+				}
+			}
+		}
+		// the same index once more after a refresh of the very parent (same key, new chain key): the child must be the
+		// BIP-32 child for the chain key held now, not a remembered one
+		if proto != "cmp" || env.Thorough() {
+			if rp, rferr := cur.Refresh(r, opt()); rferr != nil {
+				t.Violation(proto+"|refresh-failed", "%s (refresh of the parent after deriving): %v", tag, rferr)
+				return
+			} else {
+				rsh := rp.Shares()
+				chainR := rsh[0].ChainKey
+				wantR, wantChainR, _, rerrR := ref.CKDpub(rsh[0].GroupKey, chainR, idx)
+				var again fx.Mat
+				var aerr error
+				if p, fr, txt := vk.Guard(func() { again, aerr = rp.Derive(idx) }); p {
+					t.Violation(proto+"|derive-panic|"+fr, "%s after refresh: %s", tag, txt)
+					return
+				}
+				if rerrR == nil && len(chainR) == 32 {
+					if aerr != nil {
+						t.Violation(proto+"|derive-failed", "%s after a refresh of the parent: %v", tag, aerr)
+						return
+					}
+					expR := wantR
+					as := again.Shares()
+					if as[0].XOnly && expR.Y.Bit(0) == 1 {
+						expR = expR.Neg()
+					}
+					t.Obs("rederivations_after_refresh", 1)
+					t.Distinct("%s|same-index-after-refresh|%s|chain-key-changed=%v", proto, icls, !bytes.Equal(chainR, chain))
+					for _, s := range as {
+						if s.Malformed != "" || !s.GroupKey.Equal(expR) || !bytes.Equal(s.ChainKey, wantChainR) {
+							t.Violation(proto+"|same-index-after-refresh-differs-from-BIP32", "%s: index %d derived again after a refresh of the parent (chain key %x -> %x) gives key %x / chain code %x at party %q, BIP-32 prescribes %x / %x", tag, idx, chain, chainR, s.GroupKey.Compress(), s.ChainKey, s.ID, expR.Compress(), wantChainR)
+							return
+						}
+					}
+					if f, _ := fx.CheckMaterial(r, as, &expR, 20); len(f) > 0 {
+						t.Violation(proto+"|same-index-after-refresh-sharing|"+f[0][0], "%s: %s", tag, f[0][1])
+						return
+					}
 				}
 			}
 		}
